@@ -216,3 +216,82 @@ func c11RejectedTextReloads(c *Ctx) {
 		}
 	}
 }
+
+// The same enumeration with an adapter that implements only the mandatory persist.Adapter interface (no batch, no
+// in-place update): whatever casbin does for the optional calls (today: a failed type assertion, recovered here and
+// counted as a refused call), a call that reports an error or is refused must leave rules, index, links and
+// decisions as they were.  Implementation only.
+func c11BasicAdapterFaults(c *Ctx) {
+	plain := []mem.Line{{PType: "p", Rule: []string{"admin", "data1", "read"}}, {PType: "p", Rule: []string{"staff", "data2", "read"}}, {PType: "p", Rule: []string{"alice", "data2", "read"}},
+		{PType: "g", Rule: []string{"alice", "admin"}}, {PType: "g", Rule: []string{"alice", "staff"}}, {PType: "g", Rule: []string{"admin", "root"}}, {PType: "g", Rule: []string{"bob", "admin"}}}
+	calls := []rbacCall{
+		{"UpdatePolicy(alice data2 read -> alice data2 write)", false, false, func(e *casbin.Enforcer) (bool, error) {
+			return e.UpdatePolicy([]string{"alice", "data2", "read"}, []string{"alice", "data2", "write"})
+		}},
+		{"UpdateGroupingPolicy(alice admin -> alice root)", false, false, func(e *casbin.Enforcer) (bool, error) {
+			return e.UpdateGroupingPolicy([]string{"alice", "admin"}, []string{"alice", "root"})
+		}},
+		{"UpdatePolicies(2 pairs)", false, false, func(e *casbin.Enforcer) (bool, error) {
+			return e.UpdatePolicies([][]string{{"admin", "data1", "read"}, {"alice", "data2", "read"}}, [][]string{{"admin", "data1", "write"}, {"alice", "data1", "read"}})
+		}},
+		{"UpdateGroupingPolicies(2 pairs)", false, false, func(e *casbin.Enforcer) (bool, error) {
+			return e.UpdateGroupingPolicies([][]string{{"alice", "admin"}, {"bob", "admin"}}, [][]string{{"alice", "root"}, {"bob", "staff"}})
+		}},
+		{"AddPolicy(bob data1 read)", false, false, func(e *casbin.Enforcer) (bool, error) { return e.AddPolicy("bob", "data1", "read") }},
+		{"RemovePolicy(alice data2 read)", false, false, func(e *casbin.Enforcer) (bool, error) { return e.RemovePolicy("alice", "data2", "read") }},
+		{"AddPolicies(2)", false, false, func(e *casbin.Enforcer) (bool, error) {
+			return e.AddPolicies([][]string{{"bob", "data1", "read"}, {"bob", "data2", "read"}})
+		}},
+		{"RemoveGroupingPolicies(2)", false, false, func(e *casbin.Enforcer) (bool, error) {
+			return e.RemoveGroupingPolicies([][]string{{"alice", "admin"}, {"bob", "admin"}})
+		}},
+	}
+	for _, cl := range c11RbacCalls() {
+		if !cl.domain {
+			calls = append(calls, cl)
+		}
+	}
+	for _, call := range calls {
+		for k := 1; k <= 4; k++ {
+			a := mem.New()
+			a.Lines = append(a.Lines, plain...)
+			e, err := casbin.NewEnforcer(rbacSpec(false, false).Build(), mem.Basic{A: a})
+			if err != nil {
+				panic(err)
+			}
+			before := c11State(e, false)
+			a.Arm(k)
+			var cerr error
+			refused := false
+			func() {
+				defer func() {
+					if r := recover(); r != nil {
+						refused = true
+					}
+				}()
+				_, cerr = call.run(e)
+			}()
+			fired := a.FailAt == 0
+			a.FailAt = 0
+			c.Evals++
+			c.Count("basic_adapter_fault_cases", 1)
+			if !(refused || (fired && cerr != nil)) {
+				if !fired {
+					break
+				}
+				continue
+			}
+			if call.composite && k >= 2 {
+				continue // finding D40
+			}
+			what := fmt.Sprintf("%s on an adapter with the mandatory interface only, adapter call #%d armed (refused=%v, error=%v)", call.name, k, refused, cerr)
+			if after := c11State(e, false); after != before {
+				c.Direct("a refused or failed call changed the in-memory state (adapter without the optional interfaces)", fmt.Sprintf("%s\nbefore: %s\nafter:  %s", what, before, after))
+			}
+			c.Nontrivial("basic-adapter-fault|" + what)
+			if refused {
+				break
+			}
+		}
+	}
+}
